@@ -46,7 +46,11 @@ func (c *compatResponse) Write(b []byte) (int, error) {
 }
 
 func (c *compatResponse) WriteHeader(statusCode int) {
-	if !c.writeHeader {
+	if c.writeHeader {
+		// the header has been sent: a superfluous call changes nothing (as in net/http)
+		return
+	}
+	{
 		for k, v := range c.header {
 			for _, vv := range v {
 				if k == consts.HeaderContentLength {
